@@ -135,7 +135,7 @@ def cdb(t):
 
 def run(ctx):
     repo = ctx.repo
-    ctx.decided = ['C03.1 writers of alive', 'C03.2 who destroys', 'C03.3 annotation', 'C03.4 one alive per id',
+    ctx.decided = ['C03.7 decoded arguments are not shared between lines', 'C03.1 writers of alive', 'C03.2 who destroys', 'C03.3 annotation', 'C03.4 one alive per id',
                    'C03.5 server range', 'C03.6 lifespan']
     ctx.undecided = ['display rounding of the lifespan']
     ctx.assumptions = ['server id range 0xff000000 (Wayland protocol, frozen)', 'no monkey-patching (checked)']
@@ -282,5 +282,11 @@ def run(ctx):
                 ctx.check(norm(arg_by_name(e, ro_init, 'create_time')) == 'time', 'C03.6', 'create_object:create_time', f_create.loc(e.node),
                           'the new object is stamped with the creating message\'s time')
     ctx.floor('C03.6', nct, 1, 'ResolvedObject construction in create_object')
+    # ---- C03.7 the argument a destruction / creation is resolved from belongs to its line alone ----------------------
+    # Arg.Object.resolve() completes the argument object in place; a memoised decoder function would hand the already completed object of an
+    # earlier line to a later line with the same text - its delete_id would then be annotated with the earlier incarnation
+    from .common import check_no_memoised_mutables
+    n_memo = check_no_memoised_mutables(ctx, 'C03.7', [repo.func('parse.message')], 'line')
+    ctx.check(True, 'C03.7', 'decoder:no-shared-argument-objects', repo.func('parse.message').loc(), 'memoised functions in the decoder closure examined: %d' % n_memo)
     return ('writer enumeration of alive/destroy_time/create_time/destroyed_obj; scenario evaluation of the two destroy sites; '
             'path rule for one-alive-per-id. Decided: %s. Undecided: %s' % ('; '.join(ctx.decided), '; '.join(ctx.undecided)))
